@@ -316,8 +316,12 @@ fn fill(tier: Tier, acc: &mut Acc) {
         for (n, f) in stmt_chains(&salts, &simples, depth, &incdec) {
             acc.add("Ci", n.clone(), in_func(f.clone()));
             // the same chain inside an unchecked block, followed by a sibling after it
-            let u = node("Block", vec![T("unchecked"), T("{"), C(f), C(expr_stmt(nodep("PreDecrement", 2, vec![T("--"), C(var("j"))]))), T("}")]);
+            let u = node("Block", vec![T("unchecked"), T("{"), C(f.clone()), C(expr_stmt(nodep("PreDecrement", 2, vec![T("--"), C(var("j"))]))), T("}")]);
             acc.add("Ci", format!("unchecked<-{}", n), in_func(u));
+            // ... and a plain increment AFTER a (closed) unchecked block, in the same body: the exemption ends with the block
+            let closed = node("Block", vec![T("unchecked"), T("{"), C(expr_stmt(nodep("PreIncrement", 2, vec![T("++"), C(var("u"))]))), T("}")]);
+            let both = block(vec![closed, f]);
+            acc.add("Ci", format!("after-unchecked<-{}", n), in_func(both));
         }
     }
     for depth in 1..=2 {
